@@ -96,6 +96,61 @@ def canon_r2(A, b, n, nD):
     return A[np.ix_(perm, perm)], b[perm]
 
 
+def plumb_pass(case):
+    """one pass through the real solver plumbing with the backend intercepted: (A given, b given, x returned, extra)"""
+    from EasyFEA.Simulations import Solvers
+    simu, pt = build_plumb(case)
+    cap = {}
+    real = Solvers._Solve_Axb
+
+    def fake(simu_, problemType, A, b, x0, lb, ub, resol=None, ownedDofs=None, mapping=None):
+        cap["A"] = np.asarray(A.todense(), dtype=float)
+        cap["b"] = np.asarray(b.todense(), dtype=float).ravel()
+        N = cap["A"].shape[0]
+        ans = case["answer"]
+        return np.array([ans[i % len(ans)] for i in range(N)], dtype=float)
+    Solvers._Solve_Axb = fake
+    try:
+        with contextlib.redirect_stdout(io.StringIO()):
+            x, extra = Solvers.Solve_simu(simu, pt)
+    finally:
+        Solvers._Solve_Axb = real
+    return cap["A"], cap["b"], np.asarray(x, dtype=float), extra
+
+
+def scaled_case(case, s):
+    """the same problem in other units: every prescribed value, load, current Newton state and backend answer
+    multiplied by s (a power of two: exact in floating point); the matrix is unchanged"""
+    c = json.loads(json.dumps(case))
+    c["F_e"] = None if c["F_e"] is None else [v * s for v in c["F_e"]]
+    c["neumann"] = [[d, [v * s for v in vals]] for d, vals in c["neumann"]]
+    c["dirichlet"] = [[d, [v * s for v in vals]] for d, vals in c["dirichlet"]]
+    c["lagrange"] = [[d, cs, v * s] for d, cs, v in c["lagrange"]]
+    c["u"] = [v * s for v in c["u"]]
+    c["answer"] = [v * s for v in c["answer"]]
+    return c
+
+
+def scale_twins(case):
+    """homogeneity: the reduced / bordered system handed to the backend and the returned vector must be EXACTLY s times
+    the unscaled ones (s = 2^k), however small or large the prescribed values are"""
+    fails = []
+    A0, b0, x0, _ = plumb_pass(case)
+    for k in case.get("scales", []):
+        s = 2.0 ** k
+        A1, b1, x1, _ = plumb_pass(scaled_case(case, s))
+        if A1.shape != A0.shape or not np.array_equal(A1, A0):
+            fails.append({"k": k, "what": "matrix given to the backend changes with the scale of the data"})
+        elif not np.array_equal(b1, s * b0):
+            i = int(np.nonzero(b1 != s * b0)[0][0])
+            fails.append({"k": k, "what": "right-hand side given to the backend is not s * (unscaled one)", "index": i,
+                          "observed/s": float(b1[i] / s), "expected": float(b0[i])})
+        elif not np.array_equal(x1, s * x0):
+            i = int(np.nonzero(x1 != s * x0)[0][0])
+            fails.append({"k": k, "what": "returned vector is not s * (unscaled one)", "index": i, "observed/s": float(x1[i] / s), "expected": float(x0[i])})
+    return fails
+
+
 def run_plumb(case):
     from EasyFEA.Simulations import Solvers
     simu, pt = build_plumb(case)
@@ -163,6 +218,7 @@ def run_plumb(case):
                 except Exception as ex:
                     pred["constrained_values"] = [("raised", type(ex).__name__, str(ex)[:100])]
     res["pred"] = pred
+    res["scale_fail"] = scale_twins(case) if case.get("scales") else []
     return res
 
 
@@ -216,10 +272,10 @@ def new_simu(case, solver=None):
     kind = case["kind"]
     mesh, coords = grid_mesh(case["nx"], case["ny"], case["elem"], case.get("orphans", 0))
     if kind == "elastic":
-        mat = Models.Elastic.Isotropic(2, E=1.0, v=0.25, planeStress=True, thickness=1.0)
+        mat = Models.Elastic.Isotropic(2, E=1.0 * case.get("modulus", 1.0), v=0.25, planeStress=True, thickness=1.0)
         simu = Simulations.Elastic(mesh, mat, verbosity=False)
     elif kind == "thermal":
-        simu = Simulations.Thermal(mesh, Models.Thermal(k=1.0, c=1.0, thickness=1.0), verbosity=False)
+        simu = Simulations.Thermal(mesh, Models.Thermal(k=1.0 * case.get("modulus", 1.0), c=1.0, thickness=1.0), verbosity=False)
     else:
         raise NotImplementedError(kind)
     if solver:
@@ -299,11 +355,42 @@ def run_phys(case):
             if case.get("lag_as") is not None and not any_duplicate(case, coords, simu, pt, case["lag_as"]):
                 s2, pt2, _ = build_phys(case, lag_as=case["lag_as"])
                 u2 = np.asarray(s2.Solve(), dtype=float)
-                tol = 1e-10 * max(1.0, cond) * max(1.0, float(np.abs(u).max()))
+                umax = float(np.abs(u).max())      # tolerances are relative to the magnitude of the solution: no absolute floor
+                tol = 1e-10 * max(1.0, cond) * umax
                 dmax = float(np.abs(u2 - u).max()) if np.all(np.isfinite(u2)) else float("inf")
                 add("r2-vs-r1:agree", dmax <= tol, {"maxdiff": dmax, "tol": tol})
-                bad2 = [(d, float(u2[d]), s) for d, s in sorted(sums.items()) if not abs(u2[d] - s) <= 1e-10 * max(1.0, abs(s))]
+                bad2 = [(d, float(u2[d]), s) for d, s in sorted(sums.items()) if not abs(u2[d] - s) <= 1e-10 * umax]
                 add("r2:constraints<=1e-10", not bad2, {"first": bad2[:3]})
+            # ---- scaled twins: the same problem in other units (values and loads times s = 2^k, modulus times 2^m and loads
+            # accordingly): the solution must be s times the base solution, however small or large the data are
+            for k, mk in case.get("scales", []):
+                sV, sE = 2.0 ** k, 2.0 ** mk
+                cs = json.loads(json.dumps(case))
+                cs["modulus"] = sE
+
+                def sc(spec, f):
+                    if spec["kind"] == "const":
+                        return {"kind": "const", "v": spec["v"] * f}
+                    if spec["kind"] == "array":
+                        return {"kind": "array", "v": [v * f for v in spec["v"]]}
+                    return {"kind": "func", "abc": [v * f for v in spec["abc"]]}
+                for bc in cs["dirichlet"]:
+                    bc["values"] = [sc(v, sV) for v in bc["values"]]
+                for bc in cs["neumann"]:
+                    bc["values"] = [sc(v, sV * sE) for v in bc["values"]]
+                s4, pt4, _ = build_phys(cs)
+                u4 = np.asarray(s4.Solve(), dtype=float)
+                # orphan dofs are excluded: by convention they get a unit diagonal, so they return their load, not load / modulus
+                phys = np.setdiff1d(np.arange(u.size), orph)
+                ref = sV * u[phys]
+                umax4 = float(np.abs(ref).max()) if phys.size else 0.0
+                dev = (float(np.abs(u4[phys] - ref).max()) if phys.size else 0.0) if np.all(np.isfinite(u4)) else float("inf")
+                add("scaled-twin:solution-is-s-times-base", dev <= 1e-12 * umax4, {"k_values": k, "k_modulus": mk, "maxdev/|s u|max": (dev / umax4) if umax4 else dev, "exact": bool(np.array_equal(u4[phys], ref))})
+                K4 = s4.Get_K_C_M_F(pt4)[0]
+                b4 = np.asarray(s4._Solver_Apply_Neumann(pt4).todense()).ravel()
+                r4 = (K4 @ u4 - b4)[un_reg]
+                scale4 = float(np.abs(K4).dot(np.abs(u4)).max() + np.abs(b4).max() + 1e-300)
+                add("scaled-twin:free-residual<=1e-10", (float(np.abs(r4).max()) if un_reg.size else 0.0) <= 1e-10 * scale4, {"k_values": k, "k_modulus": mk, "res/scale": float(np.abs(r4).max() / scale4) if un_reg.size else 0.0})
             # ---- backends (sampled)
             # (a problem whose dofs are all constrained has an empty reduced system: nothing for a backend to do)
             for solver in (case.get("backends", []) if len(un) > 0 else []):
@@ -319,7 +406,7 @@ def run_phys(case):
                     r3 = (K @ u3 - b)[un_reg]
                     bi = (b - np.asarray(K.todense())[:, kn] @ u3[kn])[un_reg]
                     rel = float(np.abs(r3).max() / (np.abs(bi).max() + 1e-300)) if un_reg.size else 0.0
-                    tol = 1e-4 * max(1.0, cond) * max(1.0, float(np.abs(u).max()))
+                    tol = 1e-4 * max(1.0, cond) * float(np.abs(u).max())
                     dmax = float(np.abs(u3 - u).max())
                     bad3 = [(d, float(u3[d]), s) for d, s in sorted(sums.items()) if u3[d] != s]
                     add("backend:%s:constrained-exact" % solver, not bad3, {"first": bad3[:3]})
@@ -370,7 +457,7 @@ def run_multi(case):
                 apply_bcs(fresh, ptf, coords, cumD, cumN)
                 uf = np.asarray(fresh.Solve(), dtype=float)
                 dmax = float(np.abs(u - uf).max()) if np.all(np.isfinite(u)) else float("inf")
-                add(tag + ":equals-fresh-simulation", dmax <= 1e-12 * max(1.0, float(np.abs(uf).max())), {"maxdiff": dmax})
+                add(tag + ":equals-fresh-simulation", dmax <= 1e-12 * float(np.abs(uf).max()), {"maxdiff": dmax})
                 kn, un = simu.Bc_dofs_known_unknown(pt)
                 knf, unf = fresh.Bc_dofs_known_unknown(ptf)
                 add(tag + ":known-unknown-split-equals-fresh", np.array_equal(kn, knf) and np.array_equal(un, unf), {"known": [int(v) for v in kn][:12], "fresh": [int(v) for v in knf][:12]})
@@ -496,7 +583,7 @@ def run_special(case):
                 s0 = build("scipy")
                 res["rows"] = constraint_rows(s0)
                 u0 = np.asarray(s0.Solve(), dtype=float)
-                umax = max(1.0, float(np.abs(u0).max()))
+                umax = float(np.abs(u0).max())      # relative to the solution: no absolute floor
                 add("lagrange-backends:scipy:constraints<=1e-9", np.all(np.isfinite(u0)) and constraint_residual(s0, u0) <= 1e-9 * umax, {"worst": constraint_residual(s0, u0), "n_lagrange": len(s0.Bc_Lagrange), "n": int(u0.size)})
                 for solver in case["backends"]:
                     try:
@@ -606,7 +693,7 @@ def run_special(case):
                         add("orphans:beam:orphan-dofs-regular", bool(np.all(u.reshape(-1, 3)[orph] == 0)), {"u_orphan": u.reshape(-1, 3)[orph].ravel().tolist()})
                         pt = simu.problemType
                         dd = simu.Bc_dofs_Dirichlet(pt)
-                        umax = max(1.0, float(np.abs(u).max()))
+                        umax = float(np.abs(u).max())
                         add("orphans:beam:dirichlet<=1e-10", float(np.abs(u[dd]).max()) <= 1e-10 * umax, {"max": float(np.abs(u[dd]).max())})
                         worst = max([abs(float(np.dot(bc.lagrangeCoefs, u[bc.dofs]) - bc.dofsValues[0])) for bc in simu.Bc_Lagrange] + [0.0])
                         add("orphans:beam:connection-constraints<=1e-10", worst <= 1e-10 * umax, {"worst": worst})
@@ -648,9 +735,9 @@ def run_special(case):
                     for bc in simu.Bc_Lagrange:
                         lhs = float(np.dot(bc.lagrangeCoefs, u[bc.dofs]) - bc.dofsValues[0])
                         worst = max(worst, abs(lhs))
-                    add("beam:connection-constraints<=1e-10", worst <= 1e-10 * max(1.0, float(np.abs(u).max())), {"worst": worst, "n": len(simu.Bc_Lagrange)})
+                    add("beam:connection-constraints<=1e-10", worst <= 1e-10 * float(np.abs(u).max()), {"worst": worst, "n": len(simu.Bc_Lagrange)})
                     dd = simu.Bc_dofs_Dirichlet(pt)
-                    add("beam:dirichlet<=1e-10", float(np.abs(u[dd]).max()) <= 1e-10 * max(1.0, float(np.abs(u).max())), {"max": float(np.abs(u[dd]).max())})
+                    add("beam:dirichlet<=1e-10", float(np.abs(u[dd]).max()) <= 1e-10 * float(np.abs(u).max()), {"max": float(np.abs(u[dd]).max())})
                     K, _, _, _ = simu.Get_K_C_M_F(pt)
                     n = simu.mesh.Nn * simu.Get_dof_n(pt)
                     b = np.asarray(simu._Solver_Apply_Neumann(pt).todense()).ravel()[:n]
